@@ -646,7 +646,12 @@ where
                     .set_consensus_parameters(next_version, &consensus_parameters)
                     .map_err(RuntimeError::Storage)?;
 
-                if prev.is_some() {
+                if let Some(prev) = prev {
+                    // The version is already taken: put the previous value back, so
+                    // that the failed transaction leaves the storage untouched.
+                    storage
+                        .set_consensus_parameters(next_version, &prev)
+                        .map_err(RuntimeError::Storage)?;
                     return Err(InterpreterError::Panic(
                         PanicReason::OverridingConsensusParameters,
                     ));
@@ -672,7 +677,12 @@ where
                     .set_state_transition_bytecode(next_version, root)
                     .map_err(RuntimeError::Storage)?;
 
-                if prev.is_some() {
+                if let Some(prev) = prev {
+                    // The version is already taken: put the previous value back, so
+                    // that the failed transaction leaves the storage untouched.
+                    storage
+                        .set_state_transition_bytecode(next_version, &prev)
+                        .map_err(RuntimeError::Storage)?;
                     return Err(InterpreterError::Panic(
                         PanicReason::OverridingStateTransactionBytecode,
                     ));
